@@ -125,6 +125,8 @@ func checkC09(w *World, r *Report) {
 	r.Rule("R09.3", "label / name limits", 4)
 	r.Rule("R09.5", "the name unescaper consumes every escape form whenever its bytes are there (no consuming step guarded more strictly than its width)", 1)
 	r.Rule("R09.4", "command table and cache-busting alphabet", 2)
+	r.Rule("R09.7", "the server's decoder of an upstream codec never cuts a request payload short: ascii85.Decode has worst-case room or its consumed count is checked", 1)
+	ruleAscii85Room(w, r, "R09.7")
 	r.Rule("R09.6", "the regular expressions that decide the width of an unescaping step are anchored at the start", 1)
 	ruleUnescaperRegexpsAnchored(w, r, "R09.6")
 
@@ -264,6 +266,29 @@ func c09Header(w *World, r *Report) {
 			}
 		})
 	}
+	parsedBy := "ParseUint"
+	if pbase < 0 {
+		// digits decoded by hand: `hi*36 + lo` — the base is the constant factor, the width that of the arithmetic
+		for _, g := range staticCone(decH, 2) {
+			allInstrs(g, func(in ssa.Instruction) {
+				b, ok := in.(*ssa.BinOp)
+				if !ok || b.Op != token.MUL || pbase >= 0 {
+					return
+				}
+				k, isC := constIntVal(b.Y)
+				if !isC {
+					k, isC = constIntVal(b.X)
+				}
+				if !isC || k < 2 {
+					return
+				}
+				if _, hi, ok := typeRange(b.Type()); ok {
+					pbase, pbits = k, int64(hi.BitLen())
+					parsedBy = "the arithmetic that combines the digits"
+				}
+			})
+		}
+	}
 	var problems []string
 	if randLen < 0 || len(strips) < 2 {
 		r.Undecided("R09.2", key, w.Pos(decH.Pos()), fmt.Sprintf("header constants not recognised (random part %d, strips %v)", randLen, strips))
@@ -289,7 +314,7 @@ func c09Header(w *World, r *Report) {
 		problems = append(problems, fmt.Sprintf("user id is reduced modulo %d but %d characters of base %d hold %d values", mod, pad, base, want))
 	}
 	if pbits < 11 {
-		problems = append(problems, fmt.Sprintf("ParseUint bit size %d cannot hold a user id below %d", pbits, want))
+		problems = append(problems, fmt.Sprintf("%s has a width of %d bits, which cannot hold a user id below %d", parsedBy, pbits, want))
 	}
 	r.Check(len(problems) == 0, "R09.2", key, w.Pos(encH.Pos()), fmt.Sprintf("header: 1+%d bytes (+%d-character base-%d user id mod %d) on both sides", randLen, pad, base, mod), strings.Join(problems, "; "))
 	// the NeedsUserId flag guards both
@@ -595,6 +620,8 @@ func checkC10(w *World, r *Report) {
 	c10NoPartialAnswerOnError(w, r)
 	r.Rule("R10.14", "no downstream codec cuts a response short: ascii85.Decode has worst-case room or its consumed count is checked", 1)
 	ruleAscii85Room(w, r, "R10.14")
+	r.Rule("R10.15", "a record buffer of constant size is written completely on every path: records are never padded (the client has no length field to tell padding from payload)", 3)
+	c10RecordBuffersAreNeverPadded(w, r)
 	r.Rule("R10.13", "the reassembly sorts the answer records by keys read from the records themselves (a comparator over a precomputed key slice does not follow the swaps)", 1)
 	ruleSortComparatorIndexesSortedSlice(w, r, "R10.13", func(p string) bool { return strings.HasPrefix(p, modPath+"/internal/streams/dns") })
 	r.Rule("R10.12", "answer records keep no recycled memory: what is taken from a sync.Pool is scratch space only (a record is packed after the wrapping function returned)", 1)
@@ -643,8 +670,24 @@ func c10Records(w *World, r *Report) {
 			case *ssa.MakeSlice:
 				if v, ok := constIntVal(x.Len); ok && v > 0 && v <= 4 {
 					wi.TagLen = v
+				} else if ok && v > 4 && wi.TagLen == 0 {
+					// a presized record buffer: the tag is what binary.PutUintNN writes at its start
+					if x.Referrers() != nil {
+						for _, ref := range *x.Referrers() {
+							if c, isCall := ref.(*ssa.Call); isCall {
+								if f := sCallee(c); f != nil && f.Pkg() != nil && f.Pkg().Path() == "encoding/binary" {
+									if wd := map[string]int64{"PutUint16": 2, "PutUint32": 4}[f.Name()]; wd > 0 {
+										wi.TagLen = wd
+									}
+								}
+							}
+						}
+					}
 				}
 			case *ssa.Slice:
+				if _, lowered := x.X.(*ssa.Alloc); lowered {
+					break // go/ssa's form of make([]byte, K): not a cut of the payload
+				}
 				if x.High != nil {
 					if v, ok := constIntVal(x.High); ok && v > 0 {
 						wi.Chunk = v
@@ -707,6 +750,33 @@ func c10Records(w *World, r *Report) {
 				}
 			}
 		})
+		// a presized record buffer (larger than a tag): the tag is what binary.PutUintNN writes into it
+		if wi.TagLen == 0 {
+			allInstrs(fn, func(in ssa.Instruction) {
+				c, ok := in.(*ssa.Call)
+				if !ok {
+					return
+				}
+				f := sCallee(c)
+				if f == nil || f.Pkg() == nil || f.Pkg().Path() != "encoding/binary" {
+					return
+				}
+				wd := map[string]int64{"PutUint16": 2, "PutUint32": 4}[f.Name()]
+				if wd == 0 {
+					return
+				}
+				for _, a := range c.Call.Args {
+					if sl, ok := a.(*ssa.Slice); ok && sl.Low == nil {
+						if _, isAlloc := sl.X.(*ssa.Alloc); isAlloc {
+							wi.TagLen = wd
+						}
+					}
+					if _, isMk := a.(*ssa.MakeSlice); isMk {
+						wi.TagLen = wd
+					}
+				}
+			})
+		}
 		if wi.RRType != "" {
 			wraps[wi.RRType] = wi
 			names = append(names, wi.RRType)
@@ -1099,7 +1169,9 @@ func subSliceReaches(w *World, fn *ssa.Function, p *ssa.Parameter, depth int) st
 //  (a) every piece has a provable length <= 63 (a DNS label);
 //  (b) after every dot, on every path, another piece follows whose length is provably >= 1 — otherwise
 //      the name ends in, or contains, an empty label and cannot be packed.
-func c09Dotify(w *World, r *Report, dot *ssa.Function) {
+func c09Dotify(w *World, r *Report, dot *ssa.Function) { ruleDotify(w, r, "R09.3", dot) }
+
+func ruleDotify(w *World, r *Report, rule string, dot *ssa.Function) {
 	key := "func:util.Dotify|labels"
 	pos := w.Pos(dot.Pos())
 	isDotSlice := func(v ssa.Value) bool {
@@ -1154,7 +1226,7 @@ func c09Dotify(w *World, r *Report, dot *ssa.Function) {
 		}
 	})
 	if len(dots) == 0 || len(pieces) == 0 {
-		r.Undecided("R09.3", key, pos, "the dot inserter is not built from appends of input pieces and '.' (idiom not recognised)")
+		r.Undecided(rule, key, pos, "the dot inserter is not built from appends of input pieces and '.' (idiom not recognised)")
 		return
 	}
 	var bad []string
@@ -1189,13 +1261,13 @@ func c09Dotify(w *World, r *Report, dot *ssa.Function) {
 			}
 		})
 		if !okp {
-			r.Undecided("R09.3", key, pos, "path budget exceeded")
+			r.Undecided(rule, key, pos, "path budget exceeded")
 			return
 		}
 	}
 	sort.Strings(bad)
 	bad = uniqStrings(bad)
-	r.Check(len(bad) == 0, "R09.3", key, pos, fmt.Sprintf("%d piece append(s) proven <= 63 octets; after each of the %d dot append(s) a provably non-empty piece follows on every path", len(pieces), len(dots)), strings.Join(bad, "; "))
+	r.Check(len(bad) == 0, rule, key, pos, fmt.Sprintf("%d piece append(s) proven <= 63 octets; after each of the %d dot append(s) a provably non-empty piece follows on every path", len(pieces), len(dots)), strings.Join(bad, "; "))
 }
 
 func uniqStrings(in []string) []string {
